@@ -160,6 +160,11 @@ def run_retry(mutate=None, adaptive=True):
                 g.append(r.e == 0)
             else:
                 g.append(r.e <= s.options.max_solve_retries.e + 1)
+            # the loop may count its attempts in a local of its own (`while result is None: ...; retries += 1`) instead of iterating over a counter:
+            # that local is the attempt index
+            rt = loc.get("retries", loops.UNBOUND)
+            if rt is not loops.UNBOUND and isinstance(rt, (SI, int)) and "retries" in getattr(spec, "assigned", ()):
+                g.append(SI.lift(rt).e == r.e)
             return g
 
         def havoc_heap(hv):
